@@ -1,4 +1,5 @@
 mod canon;
+mod fpprobe;
 mod mc;
 mod preds;
 mod script;
@@ -15,6 +16,7 @@ fn main() {
         Some("store") => store::run(),
         Some("mc") => mc::run(),
         Some("sim") => sim::run(),
+        Some("fpprobe") => fpprobe::run(args.get(2).and_then(|s| s.parse().ok()).unwrap_or(5)),
         Some("draws") => sim::draws(args[2].parse().unwrap(), args[3].parse().unwrap()),
         _ => {
             eprintln!("usage: vh store|mc|sim|pred|py ...");
